@@ -148,8 +148,23 @@ where
     pub(crate) fn prettify(&mut self, node: Node, output_token: &Output) -> (usize, bool) {
         use Output::*;
         match output_token {
-            StartTagOpen(_) => (self.get_indentation(), false),
-            Comment(_) | ProcessingInstruction(..) => (self.get_indentation(), self.get_newline()),
+            // no indentation within the scope of xml:space="preserve"
+            StartTagOpen(_) => (
+                if self.in_space_preserve() {
+                    0
+                } else {
+                    self.get_indentation()
+                },
+                false,
+            ),
+            Comment(_) | ProcessingInstruction(..) => (
+                if self.in_space_preserve() {
+                    0
+                } else {
+                    self.get_indentation()
+                },
+                self.get_newline(),
+            ),
             StartTagClose => {
                 let newline = if self.xot.first_child(node).is_some() {
                     if !self.has_inline_child(node) {
@@ -178,7 +193,7 @@ where
             }
             EndTag(_) => {
                 let indentation = if self.xot.first_child(node).is_some() {
-                    let no_indentation = self.in_mixed();
+                    let no_indentation = self.in_mixed() || self.in_space_preserve();
                     self.pop();
                     if !no_indentation {
                         self.get_indentation()
